@@ -199,8 +199,11 @@ def ob_wnaf_table_multiply(bits, field):
     lay = P.layout(fn.module)
     iphi = [p for p in phis if lay.resolve(p.ty).bits in (32, 64)]
     bphi = [p for p in phis if lay.resolve(p.ty).bits in (1, 8)]
-    if len(iphi) != 1 or len(bphi) != 1 or len(phis) != 2:
+    # the index, and optionally a "found a non-zero digit yet" flag (a variant that always doubles has none: doubling the identity is harmless,
+    # and the inductive step below then holds for every accumulator value)
+    if len(iphi) != 1 or len(bphi) > 1 or len(phis) != 1 + len(bphi):
         raise Inconclusive("unexpected loop-carried registers in wnaf_table_multiply: %r" % [(p.res, p.ty) for p in phis])
+    has_flag = len(bphi) == 1
     ibits = lay.resolve(iphi[0].ty).bits
     E = z3.Int("E")
     Iv = z3.BitVec("i", ibits)
@@ -215,11 +218,12 @@ def ob_wnaf_table_multiply(bits, field):
     state = {}
 
     def on_entry(regs):
-        state["entry"] = (regs[iphi[0].res], regs[bphi[0].res], I.g_rd(Ptr(state["res"], 0), gsz))
+        state["entry"] = (regs[iphi[0].res], regs[bphi[0].res] if has_flag else 0, I.g_rd(Ptr(state["res"], 0), gsz))
 
     def havoc(regs):
         regs[iphi[0].res] = Iv
-        regs[bphi[0].res] = z3.If(found, z3.BitVecVal(1, 8), z3.BitVecVal(0, 8)) if lay.resolve(bphi[0].ty).bits == 8 else found
+        if has_flag:
+            regs[bphi[0].res] = z3.If(found, z3.BitVecVal(1, 8), z3.BitVecVal(0, 8)) if lay.resolve(bphi[0].ty).bits == 8 else found
         I.g_wr(Ptr(state["res"], 0), gsz, E)
     cut.on_entry, cut.havoc = on_entry, havoc
 
@@ -259,11 +263,12 @@ def ob_wnaf_table_multiply(bits, field):
                 "the loop is entered with (index, found, acc) other than (wnaf_size, false, identity)"),
                ("accumulate", En == 2 * E + dI, "one iteration does not give E' = 2E + digit")]
         if kind == "cut":
-            ni, nf = regs[iphi[0].res], regs[bphi[0].res]
-            nfb = eir.as_bv(nf, 8) != 0 if not isinstance(nf, z3.BoolRef) else nf
-            vcs += [("index", eir.as_bv(ni, ibits) == Iv - 1, "index not decremented"),
-                    ("flag", nfb == z3.Or(found, d8 != 0), "found flag wrong"), ("invariant", z3.Implies(z3.Not(nfb), En == 0), "invariant not preserved"),
-                    ("continues", Iv != 1, "loop continues past index 0")]
+            ni = regs[iphi[0].res]
+            vcs += [("index", eir.as_bv(ni, ibits) == Iv - 1, "index not decremented"), ("continues", Iv != 1, "loop continues past index 0")]
+            if has_flag:
+                nf = regs[bphi[0].res]
+                nfb = eir.as_bv(nf, 8) != 0 if not isinstance(nf, z3.BoolRef) else nf
+                vcs += [("flag", nfb == z3.Or(found, d8 != 0), "found flag wrong"), ("invariant", z3.Implies(z3.Not(nfb), En == 0), "invariant not preserved")]
         else:
             vcs.append(("exit", Iv == 1, "loop left before index 0"))
         nq += check_vcs(pc, vcs, "wnaf_table_multiply<%d>" % bits, "wnaf_table_multiply<%s,%d>" % (field, bits), {"i": Iv, "digit": d8, "found": found})
@@ -326,6 +331,10 @@ def ob_doubleadd(field):
     for path, (kind, regs) in I.explore(once, 64):
         npaths += 1
         kinds.add(kind)
+        if "entry" not in state:
+            # highest_bit is in [0, 255]: the loop body must run at least once (for bit highest_bit)
+            raise Violation("doubleadd:%s:entry" % field, "multiply_doubleadd_restrict<%s> returns without entering its loop for some highest_bit in [0, 255] "
+                            "(the bit at highest_bit is never examined)" % field, {})
         ei, ee = state["entry"]
         En = as_int(I.g_rd(Ptr(state["res"], 0), gsz))
         vcs = [("entry", z3.And(eir.as_bv(ei, ibits) == (z3.SignExt(ibits - 32, hb) if ibits > 32 else hb), as_int(ee) == 0), "loop entered with (index, acc) other than (highest_bit, identity)"),
@@ -388,8 +397,9 @@ def ob_endomorphism_loop():
     lay = P.layout(fn.module)
     iphi = [p for p in phis if lay.resolve(p.ty).bits in (32, 64)]
     bphi = [p for p in phis if lay.resolve(p.ty).bits in (1, 8)]
-    if len(iphi) != 1 or len(bphi) != 1 or len(phis) != 2:
+    if len(iphi) != 1 or len(bphi) > 1 or len(phis) != 1 + len(bphi):
         raise Inconclusive("unexpected loop-carried registers in multiply_endomorphism: %r" % [(p.res, p.ty) for p in phis])
+    has_flag = len(bphi) == 1          # a variant without the found flag always doubles (harmless on the identity)
     ibits = lay.resolve(iphi[0].ty).bits
     E = z3.Int("E")
     Iv = z3.BitVec("i", ibits)
@@ -407,7 +417,7 @@ def ob_endomorphism_loop():
     state = {}
 
     def on_entry(regs):
-        state["entry"] = (regs[iphi[0].res], regs[bphi[0].res], I.g_rd(Ptr(state["res"], 0), 144))
+        state["entry"] = (regs[iphi[0].res], regs[bphi[0].res] if has_flag else 0, I.g_rd(Ptr(state["res"], 0), 144))
         # the table must be complete here
         state["table"] = None
         for v in regs.values():
@@ -419,7 +429,8 @@ def ob_endomorphism_loop():
 
     def havoc(regs):
         regs[iphi[0].res] = Iv
-        regs[bphi[0].res] = z3.If(found, z3.BitVecVal(1, 8), z3.BitVecVal(0, 8)) if lay.resolve(bphi[0].ty).bits == 8 else found
+        if has_flag:
+            regs[bphi[0].res] = z3.If(found, z3.BitVecVal(1, 8), z3.BitVecVal(0, 8)) if lay.resolve(bphi[0].ty).bits == 8 else found
         I.g_wr(Ptr(state["res"], 0), 144, E)
     cut.on_entry, cut.havoc = on_entry, havoc
 
@@ -474,11 +485,13 @@ def ob_endomorphism_loop():
                ("accumulate", (En - (2 * E + contrib)) % R_ORDER == 0, "one iteration does not give E' = 2E +- d0 +- lambda*d1"),
                ("sources", z3.BoolVal(src0.obj.name == "c0" and src1.obj.name == "c1"), "the recoded scalars are not (c0, c1) in this order")]
         if kind == "cut":
-            ni, nf = regs[iphi[0].res], regs[bphi[0].res]
-            nfb = eir.as_bv(nf, 8) != 0 if not isinstance(nf, z3.BoolRef) else nf
-            vcs += [("index", eir.as_bv(ni, ibits) == Iv - 1, "index not decremented"),
-                    ("flag", nfb == z3.Or(found, z3.And(in0, d0 != 0), z3.And(in1, d1 != 0)), "found flag wrong"),
-                    ("invariant", z3.Implies(z3.Not(nfb), En == 0), "invariant not preserved"), ("continues", Ix != 0, "loop continues past index 0")]
+            ni = regs[iphi[0].res]
+            vcs += [("index", eir.as_bv(ni, ibits) == Iv - 1, "index not decremented"), ("continues", Ix != 0, "loop continues past index 0")]
+            if has_flag:
+                nf = regs[bphi[0].res]
+                nfb = eir.as_bv(nf, 8) != 0 if not isinstance(nf, z3.BoolRef) else nf
+                vcs += [("flag", nfb == z3.Or(found, z3.And(in0, d0 != 0), z3.And(in1, d1 != 0)), "found flag wrong"),
+                        ("invariant", z3.Implies(z3.Not(nfb), En == 0), "invariant not preserved")]
         else:
             vcs.append(("exit", Ix == 0, "loop left before index 0"))
         nq += check_vcs(pc, vcs, "endomorphism-loop", "G1::multiply_endomorphism", {"i": Ix, "d0": d0, "d1": d1, "c0_neg": n0, "c1_neg": n1})
@@ -500,8 +513,9 @@ def ob_frobenius_loop(first_case=None):
     lay = P.layout(fn.module)
     iphi = [p for p in phis if lay.resolve(p.ty).bits in (32, 64)]
     bphi = [p for p in phis if lay.resolve(p.ty).bits in (1, 8)]
-    if len(iphi) != 1 or len(bphi) != 1 or len(phis) != 2:
+    if len(iphi) != 1 or len(bphi) > 1 or len(phis) != 1 + len(bphi):
         raise Inconclusive("unexpected loop-carried registers in multiply_frobenius: %r" % [(p.res, p.ty) for p in phis])
+    has_flag = len(bphi) == 1          # a variant without the found flag always doubles (harmless on the identity)
     ibits = lay.resolve(iphi[0].ty).bits
     E = z3.Int("E")
     Iv = z3.BitVec("i", ibits)
@@ -511,7 +525,7 @@ def ob_frobenius_loop(first_case=None):
     state = {}
 
     def on_entry(regs):
-        state["entry"] = (regs[iphi[0].res], regs[bphi[0].res], I.g_rd(Ptr(state["res"], 0), 288))
+        state["entry"] = (regs[iphi[0].res], regs[bphi[0].res] if has_flag else 0, I.g_rd(Ptr(state["res"], 0), 288))
         state["tables"] = None
         for v in regs.values():
             if isinstance(v, Ptr) and v.obj is not None and v.obj.kind == "alloca" and v.obj.size == 4 * 2 * 288:
@@ -522,7 +536,8 @@ def ob_frobenius_loop(first_case=None):
 
     def havoc(regs):
         regs[iphi[0].res] = Iv
-        regs[bphi[0].res] = z3.If(found, z3.BitVecVal(1, 8), z3.BitVecVal(0, 8)) if lay.resolve(bphi[0].ty).bits == 8 else found
+        if has_flag:
+            regs[bphi[0].res] = z3.If(found, z3.BitVecVal(1, 8), z3.BitVecVal(0, 8)) if lay.resolve(bphi[0].ty).bits == 8 else found
         I.g_wr(Ptr(state["res"], 0), 288, E)
     cut.on_entry, cut.havoc = on_entry, havoc
 
@@ -574,10 +589,12 @@ def ob_frobenius_loop(first_case=None):
                 "loop entered with (index, found, acc) other than (64, false, identity)"),
                ("accumulate", (En - (2 * E + contrib)) % R_ORDER == 0, "one iteration does not give E' = 2E + sum_j d_j |x|^j")]
         if kind == "cut":
-            ni, nf = regs[iphi[0].res], regs[bphi[0].res]
-            nfb = eir.as_bv(nf, 8) != 0 if not isinstance(nf, z3.BoolRef) else nf
-            vcs += [("index", eir.as_bv(ni, ibits) == Iv - 1, "index not decremented"), ("flag", nfb == z3.Or(found, *any_nz), "found flag wrong"),
-                    ("invariant", z3.Implies(z3.Not(nfb), En == 0), "invariant not preserved"), ("continues", Iv != 0, "loop continues past index 0")]
+            ni = regs[iphi[0].res]
+            vcs += [("index", eir.as_bv(ni, ibits) == Iv - 1, "index not decremented"), ("continues", Iv != 0, "loop continues past index 0")]
+            if has_flag:
+                nf = regs[bphi[0].res]
+                nfb = eir.as_bv(nf, 8) != 0 if not isinstance(nf, z3.BoolRef) else nf
+                vcs += [("flag", nfb == z3.Or(found, *any_nz), "found flag wrong"), ("invariant", z3.Implies(z3.Not(nfb), En == 0), "invariant not preserved")]
         else:
             vcs.append(("exit", Iv == 0, "loop left before index 0"))
         nq += check_vcs(pc, vcs, "frobenius-loop", "G2::multiply_frobenius", terms)
@@ -721,6 +738,13 @@ def ob_glv():
         goal = z3.And((sgn(g["n0"]) * z0 + sgn(g["n1"]) * z1 * LAMBDA - zK) % R_ORDER == 0, z0 >= 0, z0 < (1 << 256), z1 >= 0, z1 < (1 << 256))
         vc = z3.Implies(z3.And(*pc) if pc else z3.BoolVal(True), goal)
         ok = L.prove(vc, "glv")
+        if ok is None:
+            # lazy feasibility lets paths through whose condition the solver could not refute in its short budget (more of them on a loaded
+            # machine); decide the path condition with a long budget before spending it on the identity
+            feas = L.prove(z3.Not(z3.And(*pc)) if pc else z3.BoolVal(False), "glv path feasibility", 600000)
+            if feas is True:
+                continue
+            ok = L.prove(vc, "glv (retry)", 900000)
         if ok is None:
             # undecided: look for a concrete counterexample by running the same IR on boundary scalars in concrete mode (a failure found
             # this way is replayed natively like a solver model); without one the obligation stays inconclusive
